@@ -339,7 +339,12 @@ fn positioned_calls(g: &mut Gen, d: &DumpInfo, prefix: &str, n: usize) {
             _ => 97,
         };
         let e = g.bound();
-        if g.rng.chance(65) {
+        if g.rng.chance(25) {
+            // a half-consumed items() / items_fast() iterator pointed at this leaf through its public field
+            let n = g.rng.below(12);
+            let extra = 1 + g.rng.below(4);
+            (g.exec)(format!("{} {} {} {} {}", prefix, if g.rng.chance(50) { "retarget" } else { "retargetfast" }, n, leaf, extra));
+        } else if g.rng.chance(65) {
             let skip = g.rng.below(2);
             (g.exec)(format!("{} rangefrom {} {} {} {}", prefix, leaf, idx, skip, e));
         } else {
@@ -422,7 +427,8 @@ pub fn gen_api(rng: &mut Rng, len: usize, exec: &mut dyn FnMut(String) -> String
                 (g.exec)(format!("R getitem {}", k));
             }
             7 => {
-                let n = g.rng.below(6) as usize;
+                // mostly short requests; now and then a long one (far longer than the map, with many repeats)
+                let n = if g.rng.chance(12) { 30 + g.rng.below(120) as usize } else { g.rng.below(6) as usize };
                 let mut ks = Vec::new();
                 for _ in 0..n {
                     let k = if g.rng.chance(80) { g.present_key().unwrap_or(3) } else { g.some_key() };
@@ -431,7 +437,8 @@ pub fn gen_api(rng: &mut Rng, len: usize, exec: &mut dyn FnMut(String) -> String
                 (g.exec)(format!("R getmany {}", ks.join(" ")).trim_end().to_string());
             }
             8 => {
-                let n = g.rng.below(6) as usize;
+                // mostly short batches; now and then a long one in which keys repeat (order of application matters)
+                let n = if g.rng.chance(15) { 33 + g.rng.below(150) as usize } else { g.rng.below(6) as usize };
                 let mut items = Vec::new();
                 for _ in 0..n {
                     let k = if g.rng.chance(40) { g.present_key().unwrap_or(3) } else { g.some_key() };
@@ -1113,6 +1120,29 @@ pub fn gen_exh(_rng: &mut Rng, depth: usize, exec: &mut dyn FnMut(String) -> Str
 /// for (capacity 4: 80 000 keys reach 11 levels), then lookups, range queries of every bound kind, iterator prefixes,
 /// removals and validators, all against BTreeMap and the structural oracles.
 pub fn gen_deep(rng: &mut Rng, len: usize, exec: &mut dyn FnMut(String) -> String, case: usize) {
+    if case % 4 == 1 {
+        // the other extreme: a node capacity beyond 2^16, leaves holding more than 65 535 entries
+        let cap = 65_536 + 4_464 * (1 + rng.below(3) as usize);
+        let n = (cap as i64) * 2 + rng.range(0, 5000);
+        exec(format!("O new {}", cap));
+        for i in 0..n {
+            exec(format!("O insert {}#{} {}", 2 * i, i + 1, i + 1));
+        }
+        for op in ["len", "first", "last", "itemsfast", "items", "keys", "values", "fullcheck"] {
+            exec(format!("O {}", op));
+        }
+        exec(format!("O partialfast {} 2", cap + 7));
+        exec(format!("O partial {} 2", cap + 7));
+        for i in 0..(cap as i64 / 2) {
+            exec(format!("O remove {}", 2 * (2 * i)));
+        }
+        for op in ["len", "itemsfast", "items", "fullcheck"] {
+            exec(format!("O {}", op));
+        }
+        exec(format!("O range i{} e{}", 2 * (n / 2), 2 * (n / 2) + 40));
+        exec("O drop".into());
+        return;
+    }
     let cap = [4usize, 4, 5, 6][case % 4];
     let n: i64 = (len as i64).max(1000) * if cap == 4 { 1 } else { 2 };
     exec(format!("O new {}", cap));
@@ -1159,6 +1189,21 @@ pub fn gen_deep(rng: &mut Rng, len: usize, exec: &mut dyn FnMut(String) -> Strin
         let a = 2 * rng.range(0, n);
         exec(format!("O range i{} e{}", a, a + 2 * rng.range(0, 8)));
         exec(format!("O get {}", a));
+    }
+    exec("O len".into());
+    // regrow while thousands of freed slots are pending (long-lived arenas: allocation counters in the hundreds of
+    // thousands, free lists that must be consumed before the arena grows), then shrink and regrow once more
+    for round in 0..2 {
+        for i in 0..(n / 6) {
+            serial += 1;
+            exec(format!("O insert {}#{} {}", 2 * (n / 4 + i) + 1 + 2 * round as i64 * 0, serial, serial));
+        }
+        exec("O fullcheck".into());
+        exec("O counts".into());
+        for i in 0..(n / 8) {
+            exec(format!("O remove {}", 2 * (n / 4 + i) + 1));
+        }
+        exec("O fullcheck".into());
     }
     exec("O len".into());
     exec("O drop".into());
